@@ -185,6 +185,27 @@ CLAIMS["C10"] = dict(
               "points)",
     ref="3/C10")
 
+CLAIMS["C09"] = dict(
+    text="The real bodies of task_split.split and task_join.join run over "
+         "recording stubs. split: symbolic split size for every N in the "
+         "bound; z3 proves the windows partition 0..N-1 in order with at most "
+         "the requested size. join: acquisition day/hour/minute/second and "
+         "optional fractional-second digits are symbolic characters of "
+         "symbolic strings, feature presence is symbolic; the real sort, the "
+         "real feature-intersection loop and the real offset arithmetic are "
+         "executed and z3 proves chronological order (ties stable), stored "
+         "features == features available in every input, time/frame "
+         "continued by the acquisition offset, logs of every source kept, no "
+         "exception.",
+    note="Trusted: z3, symx (SStr = per-path concrete length, symbolic "
+         "characters), stubs for new_dataset/export/RTDCWriter, "
+         "time.strptime/mktime linear in the parsed fields, round() and "
+         "np.uint64 contracts; the literal `'_'.join` call (if present) is "
+         "routed through a shim by an AST rewrite of the current source.",
+    technique="symbolic execution of the real task bodies (symbolic strings "
+              "as character-code vectors) + z3 (LIA/LRA)",
+    ref="3/C09")
+
 NOT_APPLICABLE = {
 }
 
